@@ -88,6 +88,10 @@ fn admissible(p: &ReqPlan) -> bool {
 }
 
 pub fn exec_req(p: &ReqPlan, trace: bool) -> Exec {
+    rc::with_stretch(p.base.seed, p.base.stretch_pm, || exec_req_inner(p, trace))
+}
+
+fn exec_req_inner(p: &ReqPlan, trace: bool) -> Exec {
     let mut fields: Vec<(String, String)> = Vec::new();
     for (n, v) in [(":method", &p.method), (":scheme", &p.scheme), (":authority", &p.authority), (":path", &p.path), (":protocol", &p.protocol)] {
         if let Some(v) = v {
@@ -263,6 +267,10 @@ fn classify_status(s: &Option<String>) -> StatusClass {
 }
 
 pub fn exec_status(p: &StatusPlan, trace: bool) -> Exec {
+    rc::with_stretch(p.base.seed, p.base.stretch_pm, || exec_status_inner(p, trace))
+}
+
+fn exec_status_inner(p: &StatusPlan, trace: bool) -> Exec {
     let mut fields: Vec<(String, String)> = Vec::new();
     if let Some(s) = &p.status {
         fields.push((":status".into(), s.clone()));
